@@ -186,7 +186,10 @@ def check(ctx, case):
             ctx.fail("link|" + adapter.exc_sig(e), "linking an accepted module failed: %r\n%s" % (e, src), case)
             continue
         executed = 0
+        slow = False
         for entry in entries:
+            if slow:
+                break
             for ii, (args, gl) in enumerate(inputs.get(entry, [])):
                 vm = adapter.new_vm(program)
                 for k, v in deep_copy(gl).items():
@@ -199,6 +202,10 @@ def check(ctx, case):
                     continue
                 if ran.diverged:
                     ctx.discard("step-budget-or-wall-clock")
+                    if ran.timed_out:
+                        # bignum blow-up: every further run of this program would also sit out the wall-clock guard
+                        slow = True
+                        break
                     continue
                 name = type(ran.exc).__name__
                 if name in ALLOWED_ALWAYS:
@@ -228,9 +235,12 @@ def check(ctx, case):
                     sig = "vm|" + vm_sig(ran.exc) + only_opt
                 ctx.fail(sig, "accepted program fails in the VM (optimize=%s%s): %r\ninvoke %s(%r) globals=%r\n%s" % (
                     opt, ", the unoptimised module succeeds on this input" if only_opt else "", ran.exc, entry, args, gl, src), case)
+        if slow:
+            ctx.label("abandoned-after-wall-clock-guard")
+            break
         if executed and _uses_nonscalar(src):
             ctx.nontrivial((src, opt))
-    if results[False] is not None and results[True] is None and accepted_any:
+    if results.get(False) is not None and results.get(True) is None and accepted_any:
         pass  # already reported by judge_compile unless the optimised compile was rejected by the front end (impossible)
     if accepted_any:
         ctx.label("accepted")
